@@ -1054,6 +1054,16 @@ Definition ex_cparse := ctab_lookup ex_tab.
 Lemma inst_H0 : ex_cparse "==0" <> None.
 Proof. discriminate. Qed.
 
+(* test callables of the instance: key 0 = lambda x: x - 0.25, key 1 = lambda x: x *)
+Definition ex_cfun := ftab_lookup [ (0, (0, F 1 (-2))); (1, (3, xzero)) ].
+(* canonical form of a violation value for stating examples (Q is not normalised) *)
+Definition js_fval_same (a : js_fval) : option (option Q) :=
+  match a with
+  | None => None
+  | Some (Fin q) => Some (Some (Qred q))
+  | Some _ => Some None
+  end.
+
 (* bit patterns: 0.25, 0.75, 1.5, 2.0, -0.0, +inf *)
 Definition b_quarter := 4598175219545276416.
 Definition b_3quarter := 4604930618986332160.
@@ -1065,7 +1075,7 @@ Definition b_inf := 9218868437227405312.
 (* a live algorithm on a problem built from a function f, one MAXIMISED objective, constraint "<=0.5";
    first solution: constraint value 0.25 (feasible for "<=0.5", not for "==0"), second: 0.75 *)
 Definition ex_problem : problem :=
-  mkProblem Supplied "Problem" 1 1 1 (Some "f"%string) [Some "Real(0.000000, 1.000000)"%string] [Maximize] ["<=0.5"%string].
+  mkProblem Supplied "Problem" 1 1 1 (Some "f"%string) [Some "Real(0.000000, 1.000000)"%string] [Maximize] [DOp "<=0.5"].
 Definition ex_algo : algo Z :=
   mkAlgo Z "NSGAII" 8 ex_problem
     [ mkSol Z ex_problem [JNum b_quarter] [JNum b_1half] [JNum b_quarter] (Some xzero) true;
@@ -1076,6 +1086,7 @@ Definition sols_of (r : res (option problem * pval Z)) : list (psol Z) :=
   | Ok (_, PList _ l) => flat_map (fun v => match v with PSol _ s => [s] | _ => [] end) l
   | _ => []
   end.
+Notation ex_roundtrip := (save_then_load Z f64_val ex_cparse ex_cfun Z xid xid).
 
 Example ex_algo_wf : wf_algo Z f64_val ex_cparse ex_algo = true.
 Proof. vm_compute. reflexivity. Qed.
@@ -1083,12 +1094,12 @@ Proof. vm_compute. reflexivity. Qed.
 (* the repaired decoder: problem rebuilt with the saved direction/constraint, feasibility w.r.t. "<=0.5" *)
 Example ex_algo_repaired :
   exists outs,
-    load_json Z f64_val ex_cparse ex_cfun Z xid None (save_json Z Z xid (SvAlgorithm Z ex_algo))
+    ex_roundtrip false None (SvAlgorithm Z ex_algo)
       = Ok (Some (rebuilt_of ex_problem), PList Z (map (PSol Z) outs)) /\
     map (ps_feas Z) outs = [true; false] /\
-    p_dirs (rebuilt_of ex_problem) = [Maximize] /\ p_cons (rebuilt_of ex_problem) = ["<=0.5"%string].
+    p_dirs (rebuilt_of ex_problem) = [Maximize] /\ p_cons (rebuilt_of ex_problem) = [DOp "<=0.5"].
 Proof.
-  exists (sols_of (load_json Z f64_val ex_cparse ex_cfun Z xid None (save_json Z Z xid (SvAlgorithm Z ex_algo)))).
+  exists (sols_of (ex_roundtrip false None (SvAlgorithm Z ex_algo))).
   split; [vm_compute; reflexivity | repeat split].
 Qed.
 
@@ -1096,12 +1107,12 @@ Qed.
    MINIMIZE, "==0", and the first solution is reported infeasible *)
 Example ex_algo_old_decoder :
   exists outs,
-    load_json_old Z f64_val ex_cparse ex_cfun Z xid None (save_json Z Z xid (SvAlgorithm Z ex_algo))
+    ex_roundtrip true None (SvAlgorithm Z ex_algo)
       = Ok (Some (new_problem Placeholder 1 1 1), PList Z (map (PSol Z) outs)) /\
     map (ps_feas Z) outs = [false; false] /\
-    p_dirs (new_problem Placeholder 1 1 1) = [Minimize] /\ p_cons (new_problem Placeholder 1 1 1) = ["==0"%string].
+    p_dirs (new_problem Placeholder 1 1 1) = [Minimize] /\ p_cons (new_problem Placeholder 1 1 1) = [DOp "==0"].
 Proof.
-  exists (sols_of (load_json_old Z f64_val ex_cparse ex_cfun Z xid None (save_json Z Z xid (SvAlgorithm Z ex_algo)))).
+  exists (sols_of (ex_roundtrip true None (SvAlgorithm Z ex_algo))).
   split; [vm_compute; reflexivity | repeat split].
 Qed.
 
@@ -1121,31 +1132,54 @@ Definition ex_sols : list (psol Z) :=
     mkSol Z ex_problem [JArr [JBool false; JBool false]; JArr [JStr "a"; JStr "b"]; JArr [JInt 0; JInt 1; JInt 2]; JNum b_two]
       [JNum b_1half; JNum b_two] [JNum b_3quarter] (Some xzero) true ].
 Definition ex_supplied : problem :=
-  mkProblem Supplied "Problem" 4 2 1 None [None; None; None; None] [Minimize; Maximize] ["<=0.5"%string].
+  mkProblem Supplied "Problem" 4 2 1 None [None; None; None; None] [Minimize; Maximize] [DOp "<=0.5"].
+(* a supplied problem whose constraint is declared by a function: key 0 = lambda x: x - 0.25 (signed) *)
+Definition ex_supplied_fn : problem :=
+  mkProblem Supplied "Problem" 4 2 1 None [None; None; None; None] [Minimize; Maximize] [DFun 0].
 
 Example ex_sols_wf : wf_sols Z f64_val 4 2 1 ex_sols = true /\ wf_sols Z f64_val 4 2 1 [] = true /\
-  wf_supplied ex_cparse 4 2 1 None = true /\ wf_supplied ex_cparse 4 2 1 (Some ex_supplied) = true.
+  wf_supplied ex_cparse 4 2 1 None = true /\ wf_supplied ex_cparse 4 2 1 (Some ex_supplied) = true /\
+  wf_supplied ex_cparse 4 2 1 (Some ex_supplied_fn) = true.
 Proof. vm_compute. repeat split. Qed.
 
 Example ex_sols_feasibility :
   exists st outs,
-    load_json Z f64_val ex_cparse ex_cfun Z xid (Some ex_supplied) (save_json Z Z xid (SvList Z ex_sols))
+    ex_roundtrip false (Some ex_supplied) (SvList Z ex_sols)
       = Ok (st, PList Z (map (PSol Z) outs)) /\ map (ps_feas Z) outs = [true; false].
 Proof.
   exists (Some ex_supplied).
-  exists (sols_of (load_json Z f64_val ex_cparse ex_cfun Z xid (Some ex_supplied) (save_json Z Z xid (SvList Z ex_sols)))).
+  exists (sols_of (ex_roundtrip false (Some ex_supplied) (SvList Z ex_sols))).
   split; [vm_compute; reflexivity | reflexivity].
 Qed.
+
+(* callable declaration x - 0.25 on constraint values -0.0 and 0.75: the callable returns -0.25 and +0.5, the
+   violations are |-0.25| = 0.25 and 0.5 (never negative, no cancellation) *)
+Example ex_sols_callable :
+  exists st outs,
+    ex_roundtrip false (Some ex_supplied_fn) (SvList Z ex_sols)
+      = Ok (st, PList Z (map (PSol Z) outs)) /\
+    map (ps_feas Z) outs = [false; false] /\
+    map (fun o => js_fval_same (ps_cv Z o)) outs = map js_fval_same [Some (F 1 (-2)); Some (F 1 (-1))].
+Proof.
+  exists (Some ex_supplied_fn).
+  exists (sols_of (ex_roundtrip false (Some ex_supplied_fn) (SvList Z ex_sols))).
+  split; [vm_compute; reflexivity | split; reflexivity].
+Qed.
+
+(* an algorithm whose problem declares a constraint by a function cannot be written: TypeError *)
+Example ex_callable_algorithm_raises :
+  ex_roundtrip false None (SvAlgorithm Z (mkAlgo Z "NSGAII" 8 ex_supplied_fn [])) = Err EType.
+Proof. reflexivity. Qed.
 
 Example ex_objs_wf : forallb (wf_objs Z f64_val 2) ex_sols = true.
 Proof. vm_compute. reflexivity. Qed.
 
-(* non-vacuity of js_feasible_iff: finite thresholds, a feasible and an infeasible value vector *)
+(* non-vacuity of js_feasible_iff: finite thresholds, a feasible and an infeasible value vector, with a callable among them *)
 Example ex_feasible_iff :
-  finite_thresholds ex_cparse ["==0"%string; "<=0.5"%string] /\
-  (exists v, js_viol Z f64_val ex_cparse ex_cfun ["==0"%string; "<=0.5"%string] [JNum b_negzero; JNum b_quarter] = Ok v /\ js_fzero v = true) /\
-  (exists v, js_viol Z f64_val ex_cparse ex_cfun ["==0"%string; "<=0.5"%string] [JNum b_negzero; JNum b_3quarter] = Ok v /\ js_fzero v = false).
+  finite_thresholds ex_cparse [DOp "==0"; DOp "<=0.5"; DFun 0] /\
+  (exists v, js_viol Z f64_val ex_cparse ex_cfun [DOp "==0"; DOp "<=0.5"; DFun 0] [JNum b_negzero; JNum b_quarter; JNum b_quarter] = Ok v /\ js_fzero v = true) /\
+  (exists v, js_viol Z f64_val ex_cparse ex_cfun [DOp "==0"; DOp "<=0.5"; DFun 0] [JNum b_negzero; JNum b_quarter; JNum b_negzero] = Ok v /\ js_fzero v = false).
 Proof.
   split; [|split; eexists; split; vm_compute; reflexivity].
-  intros c op y [H|[H|[]]] E; subst c; vm_compute in E; inversion E; subst; eexists; reflexivity.
+  intros s op y [H|[H|[H|[]]]] E; inversion H; subst s; vm_compute in E; inversion E; subst; eexists; reflexivity.
 Qed.
